@@ -9,6 +9,10 @@
             -> got = rows (own = function of a parameter); 10000 + k = the k-th lambda of the
             file (lams), 9998 = a parent() result that is not a usable Name (.name/.type/.line raise).
             Comprehensions and lambdas are transparent; an enclosing lambda may be visited.
+            (event 1 also carries lams / comps: the extents of the lambdas / comprehensions of the
+             file from the ast; comps only names the shape of a rejected chain)
+     achain oracle: the def/class nodes of the ast around a name (structural nesting), which must
+            equal the geometric Reference (a mismatch is a failure of the machinery, not of jedi)
      full   full_name of definition `row`                -> got = <<>> (None) or <<code points>>
             (mods = the dotted paths under which the file is importable given the sys.path
              the Script works with; any of them counts as "the module's import path")
